@@ -262,6 +262,13 @@ class OsProxy:
                 rig.first_read = len(data)
             if data:
                 rig.read_mid_char = ends_mid_char(data)
+            if rig.hooks:
+                # hooks of phase "read1", "read2", ...: something happens right after the k-th read of the input stream within this
+                # request (inside the paste loop: while the request is putting a paste together)
+                rig.read_no += 1
+                for ph, op in list(rig.hooks):
+                    if ph == f"read{rig.read_no}":
+                        rig.inject(op, during=True)
         return data
 
 
@@ -296,6 +303,7 @@ class Rig:
         self.hooks, self.hooks_fired, self.select_calls, self.first_read = [], True, 0, None
         self.blocked_fired = True
         self.block_no = 0
+        self.read_no = 0
         self.reads = []
         self.read_mid_char = False
         self.serial = 0
@@ -501,6 +509,7 @@ class Rig:
         self.hooks, self.hooks_fired, self.select_calls, self.first_read = [tuple(h) for h in hooks], False, 0, None
         self.blocked_fired = False
         self.block_no = 0
+        self.read_no = 0
         t0 = self.now
         sched_seen = bool(m.sched)
         try:
@@ -901,6 +910,13 @@ def wakeup_cases():
         for se in (True, False):
             base = dict(suite="wakeups", transport="pty", pt=pt, keynames="bytes", sigint_event=se)
             if se:
+                # a SIGINT / a thread-safe callback / more bytes arriving WHILE a request is putting a paste together (after its 1st, 2nd, 3rd
+                # read of the stream): every byte of the burst still comes out exactly once
+                pb = dict(suite="wakeups", transport="pty", pt=8, keynames="bytes", sigint_event=True)
+                for k in (1, 2, 3):
+                    for what in (["sigint"], ["ts", 0], ["bytes", hx(b"Z")]):
+                        yield dict(pb, ops=[["burst", 1500, hx(b"\x1bOP"), 700, "ascii"], _req(None, [(f"read{k}", what)]), _req(0), _req(0), _req(0)])
+                        yield dict(pb, ops=[["bytes", hx(fill(40, "mixed"))], _req(SMALL, [(f"read{k}", what)]), _req(0), _req(0)])
                 # events of an application class that is FALSY (defines __len__, holds nothing): injected between requests, at the entry of
                 # and during a wait, scheduled - delivered exactly once like any other event
                 fb = dict(suite="wakeups", transport="pipe", pt=pt, keynames="bytes", sigint_event=False, falsy_events=True)
